@@ -40,6 +40,18 @@ namespace bloch::runtime {
         int measure(int q);
         std::string getQasm() const;
         size_t stateSize() const { return m_state.size(); }
+#ifdef BLOCH_VERIF
+        // Verification hooks (read-only observation + deterministic RNG); add-only.
+        const std::vector<std::complex<double>>& verifState() const { return m_state; }
+        int verifQubits() const { return m_qubits; }
+        static void verifSeedRng(unsigned long long seed);
+        struct VerifOutcome {
+            char op;  // 'm' = measure, 'r' = reset
+            int qubit;
+            int branch;  // reported outcome (measure) / branch taken (reset), -1 if unknown
+        };
+        const std::vector<VerifOutcome>& verifOutcomes() const { return m_verifOutcomes; }
+#endif
 
        private:
         int m_qubits = 0;
@@ -47,6 +59,9 @@ namespace bloch::runtime {
         std::vector<std::string> m_ops;
         bool m_logOps = true;
         std::vector<bool> m_measured;
+#ifdef BLOCH_VERIF
+        std::vector<VerifOutcome> m_verifOutcomes;
+#endif
 
         // Apply a 2x2 unitary to qubit q.
         void applySingleQubitGate(int q, const std::array<std::complex<double>, 4>& m);
